@@ -15,7 +15,7 @@ from ..fold import Folder, NotConstant, try_fold
 from ..model import AnalysisError, Func, Repo, dotted, is_name, norm, walk_shallow
 from ..report import Ledger
 from ..sym import B, Const, Lin, State, Str, Sym, SymExec, Tup, as_lin, NotNumeric
-from ..util import paths
+from ..util import names_in, paths
 
 PROP = "C14"
 LEVEL = "other"
@@ -34,6 +34,59 @@ IUPAC = {
     "A": "T", "C": "G", "G": "C", "T": "A", "R": "Y", "Y": "R", "M": "K", "K": "M",
     "S": "S", "W": "W", "H": "D", "D": "H", "B": "V", "V": "B", "N": "N",
 }
+
+
+def _revcomp_by_probes(repo, simple, rc):
+    """-> (ok, why, witness, table name, n probes) or None when the function does not fold on the probes."""
+    from ..finite import UNKNOWN, Opaque, run_paths
+
+    params = rc.params()
+    # extra parameters must have defaults and no call site may pass them
+    a = rc.node.args
+    pos_defaults = dict(zip([x.arg for x in (a.posonlyargs + a.args)][::-1], a.defaults[::-1]))
+    kw_defaults = {x.arg: d for x, d in zip(a.kwonlyargs, a.kw_defaults) if d is not None}
+    env0 = {}
+    for pn in params[1:]:
+        d = pos_defaults.get(pn, kw_defaults.get(pn))
+        if d is None:
+            return None
+        v = try_fold(d, default=NotImplemented)
+        if v is NotImplemented:
+            return None
+        env0[pn] = v
+    for g, c in repo.callers_of(rc):
+        if len(c.args) > 1 or c.keywords:
+            return None
+    tables = [nm for nm in simple.assigns if nm in names_in(rc.node) and isinstance(try_fold(simple.assigns[nm], default=None), bytes) and len(try_fold(simple.assigns[nm], default=None)) == 256]
+    if len(tables) != 1:
+        return None
+    table = try_fold(simple.assigns[tables[0]], default=None)
+    probes = [bytes(range(256)), b"ACGTNacgtn", b"A", b"", b"AAC\nGT\r\n", b"RYKMSWBDHVN-*.", bytes(range(255, -1, -1)) + b"ACCGT"]
+    for pb in probes:
+        res = [r for r in run_paths(rc.node.body, {params[0]: pb, **env0}, loop_iters=(0,), opaque_calls=False) if r["path"].status == "return"]
+        if len(res) != 1 or res[0]["unknown_conds"]:
+            return None
+        rv = [e.node for e in res[0]["path"].events if e.kind == "return"][0].value
+        if rv is None:
+            return None
+        from ..finite import fold_env
+        from ..fold import NotConstant
+
+        try:
+            val = fold_env(rv, res[0]["env"])
+        except NotConstant:
+            return None
+        if val is UNKNOWN or isinstance(val, Opaque) or not isinstance(val, bytes | bytearray):
+            return None
+        want = pb[::-1].translate(table)
+        if bytes(val) != want:
+            k = next((i for i in range(min(len(val), len(want))) if val[i] != want[i]), min(len(val), len(want)))
+            return (
+                False,
+                f"reverse_complement({pb[:12]!r}{'…' if len(pb) > 12 else ''}) folds to a value of length {len(val)} that differs from the reversed, complemented input (length {len(want)}) at offset {k}: the minus-strand sequence written for a reversed piece is not the reverse complement of its residues",
+                {"input": repr(pb[:24]), "got": repr(bytes(val)[:24]), "expected": repr(want[:24])}, tables[0], len(probes),
+            )
+    return True, "", None, tables[0], len(probes)
 
 
 def run(repo: Repo, L: Ledger, tier: str):
@@ -55,32 +108,41 @@ def run(repo: Repo, L: Ledger, tier: str):
     rets = [n for n in walk_shallow(rc.node) if isinstance(n, ast.Return)]
     param = rc.params()[0]
     table_expr = None
-    ok2, why2 = False, "reverse_complement is not a single return of reversal∘translate"
-    if len(rets) == 1 and rets[0].value is not None:
-        e = rets[0].value
-        # inline single-definition locals
-        from ..util import resolve_local
-
+    # (a) decided by constant propagation on probe inputs: the function applied to probe byte strings (extra parameters at their
+    # defaults -- no call site passes them) must give the reversed, table-translated probe
+    probe_verdict = _revcomp_by_probes(repo, simple, rc)
+    if probe_verdict is not None:
+        ok2, why2, wit2, tname_p, n_pr = probe_verdict
+        L.check(ok2, "R2", rc.short, f"reverse_complement(probe) == translate(reversed(probe)) on {n_pr} probes covering all 256 byte values, by constant propagation", why2, rc.loc(), witness=wit2)
+        table_expr = ast.Name(id=tname_p, ctx=ast.Load())
+    else:
+        ok2 = False
+        e = None
         ops = []
-        guard = 0
-        while guard < 8:
-            guard += 1
-            e = resolve_local(rc, e) if isinstance(e, ast.Name) and e.id != param else e
-            if isinstance(e, ast.Subscript) and isinstance(e.slice, ast.Slice) and e.slice.lower is None and e.slice.upper is None and try_fold(e.slice.step, default=None) == -1:
-                ops.append("rev")
-                e = e.value
-            elif isinstance(e, ast.Call) and isinstance(e.func, ast.Attribute) and e.func.attr == "translate" and len(e.args) == 1:
-                ops.append("comp")
-                table_expr = e.args[0]
-                e = e.func.value
-            elif isinstance(e, ast.Call) and dotted(e.func) == "bytes" and len(e.args) == 1 and isinstance(e.args[0], ast.Call) and dotted(e.args[0].func) == "reversed":
-                ops.append("rev")
-                e = e.args[0].args[0]
-            else:
-                break
-        ok2 = is_name(e, param) and sorted(ops) == ["comp", "rev"]
-        why2 = f"composition found: {ops} applied to '{norm(e)}' (expected exactly one reversal and one translate on the parameter)"
-    L.check(ok2, "R2", rc.short, "seq reversed once and translated once", why2, rc.loc())
+        if len(rets) == 1 and rets[0].value is not None:
+            e = rets[0].value
+            from ..util import resolve_local
+
+            guard = 0
+            while guard < 8:
+                guard += 1
+                e = resolve_local(rc, e) if isinstance(e, ast.Name) and e.id != param else e
+                if isinstance(e, ast.Subscript) and isinstance(e.slice, ast.Slice) and e.slice.lower is None and e.slice.upper is None and try_fold(e.slice.step, default=None) == -1:
+                    ops.append("rev")
+                    e = e.value
+                elif isinstance(e, ast.Call) and isinstance(e.func, ast.Attribute) and e.func.attr == "translate" and len(e.args) == 1:
+                    ops.append("comp")
+                    table_expr = e.args[0]
+                    e = e.func.value
+                elif isinstance(e, ast.Call) and dotted(e.func) == "bytes" and len(e.args) == 1 and isinstance(e.args[0], ast.Call) and dotted(e.args[0].func) == "reversed":
+                    ops.append("rev")
+                    e = e.args[0].args[0]
+                else:
+                    break
+            ok2 = is_name(e, param) and sorted(ops) == ["comp", "rev"]
+        if not ok2:
+            raise AnalysisError(f"{rc.short}: neither foldable on probe inputs nor a plain reversal∘translate of the parameter (found {ops}): form not understood")
+        L.ok("R2", rc.short, "seq reversed once and translated once", rc.loc())
 
     # ---- R1
     table = None
